@@ -7,6 +7,10 @@ CHECKS = {
   text="Generated-input search: grammar-derived conforming streams (G_conf) through all five check modes, in-process (one validator per link) and through the real CLI with mute / -E variants, file and stdin; any error message, non-zero error total or non-zero exit is a violation. Exploration is the right level: the space of conforming streams is infinite and the oracle is a validity predicate.",
   note="Trusted base: the independent G_conf grammar (harness/src/gen.rs, model.rs, alpide.rs) encodes the documented protocol; CLI = repository release profile without LTO.",
   technique="property-based testing: grammar-based generation (proptest-driven choice tape) + validity oracle (zero errors), delta-debugging shrinker"),
+ "C02": dict(
+  text="Fault-catalogue testing on the real CLI: a conforming generated stream is altered so that exactly one documented rule is broken (44 catalogue entries with boundary values, applied at generated positions on the spec so that sizes and neighbouring words stay consistent); in every mode where the rule is documented as active an error of the rule's code family must be located at the layout-map offset of the offending RDH / word and the exit status must be the configured -E value; purely stateful entries must leave `check sanity*` completely silent.",
+  note="Trusted base: the catalogue in harness/src/props/c02.rs (rule -> code family -> active modes, from doc/checks_list.md and README); follow-on errors elsewhere are allowed; domain exclusions listed in the evidence assumptions.",
+  technique="property-based testing with a fault catalogue (mutation of generated conforming specs) and a located-error oracle"),
  "C03": dict(
   text="Generated-input search over well-framed streams with arbitrary header values: the scanner (in-process, seek and read-discard readers, payload loaded/skipped) and the real CLI (`view rdh`, data view; file and stdin) must visit exactly the chained RDHs, once, in order, with true offsets, independently decoded field values and exact payload bytes, under every filter kind. Differential against an independent chain walker.",
   note="Trusted base: independent RDH decoder / chain walker / filter predicate in harness/src/model.rs; domain = well-framed inputs whose first RDH0 passes the documented pre-check.",
